@@ -319,6 +319,55 @@ mod int {
     }
 }
 
+mod byte {
+    use super::*;
+
+    pub(crate) fn shl(lhs: u8, rhs: u8) -> RuntimeResult<u8, String> {
+        if rhs < 8 {
+            RuntimeResult::Return(std::byte::shl(lhs, rhs))
+        } else {
+            RuntimeResult::Panic(format!("attempted to shift left by {} bits", rhs))
+        }
+    }
+
+    pub(crate) fn shr(lhs: u8, rhs: u8) -> RuntimeResult<u8, String> {
+        if rhs < 8 {
+            RuntimeResult::Return(std::byte::shr(lhs, rhs))
+        } else {
+            RuntimeResult::Panic(format!("attempted to shift right by {} bits", rhs))
+        }
+    }
+
+    pub(crate) fn pow(base: u8, exp: u32) -> RuntimeResult<u8, String> {
+        match base.checked_pow(exp) {
+            Some(value) => RuntimeResult::Return(value),
+            None => RuntimeResult::Panic(format!(
+                "attempted to raise {} to the power of {} with overflow",
+                base, exp
+            )),
+        }
+    }
+
+    pub(crate) fn wrapping_div(dividend: u8, divisor: u8) -> RuntimeResult<u8, String> {
+        if divisor != 0 {
+            RuntimeResult::Return(dividend.wrapping_div(divisor))
+        } else {
+            RuntimeResult::Panic(format!("attempted to divide {} by 0", dividend))
+        }
+    }
+
+    pub(crate) fn overflowing_div(
+        dividend: u8,
+        divisor: u8,
+    ) -> RuntimeResult<(u8, bool), String> {
+        if divisor != 0 {
+            RuntimeResult::Return(dividend.overflowing_div(divisor))
+        } else {
+            RuntimeResult::Panic(format!("attempted to divide {} by 0", dividend))
+        }
+    }
+}
+
 mod string {
     use super::*;
     use crate::value::ValueStr;
@@ -638,8 +687,8 @@ pub fn load_byte(vm: &Thread) -> Result<ExternModule> {
         record! {
             min_value => std::byte::prim::min_value(),
             max_value => std::byte::prim::max_value(),
-            shl => primitive!(2, std::byte::shl),
-            shr => primitive!(2, std::byte::shr),
+            shl => primitive!(2, "std::byte::prim::shl", byte::shl),
+            shr => primitive!(2, "std::byte::prim::shr", byte::shr),
             bitxor => primitive!(2, std::byte::bitxor),
             bitand => primitive!(2, std::byte::bitand),
             bitor => primitive!(2, std::byte::bitor),
@@ -654,18 +703,18 @@ pub fn load_byte(vm: &Thread) -> Result<ExternModule> {
             from_le => primitive!(1, std::byte::prim::from_le),
             to_be => primitive!(1, std::byte::prim::to_be),
             to_le => primitive!(1, std::byte::prim::to_le),
-            pow => primitive!(2, std::byte::prim::pow),
+            pow => primitive!(2, "std::byte::prim::pow", byte::pow),
             saturating_add => primitive!(2, std::byte::prim::saturating_add),
             saturating_sub => primitive!(2, std::byte::prim::saturating_sub),
             saturating_mul => primitive!(2, std::byte::prim::saturating_mul),
             wrapping_add => primitive!(2, std::byte::prim::wrapping_add),
             wrapping_sub => primitive!(2, std::byte::prim::wrapping_sub),
             wrapping_mul => primitive!(2, std::byte::prim::wrapping_mul),
-            wrapping_div => primitive!(2, std::byte::prim::wrapping_div),
+            wrapping_div => primitive!(2, "std::byte::prim::wrapping_div", byte::wrapping_div),
             overflowing_add => primitive!(2, std::byte::prim::overflowing_add),
             overflowing_sub => primitive!(2, std::byte::prim::overflowing_sub),
             overflowing_mul => primitive!(2, std::byte::prim::overflowing_mul),
-            overflowing_div => primitive!(2, std::byte::prim::overflowing_div),
+            overflowing_div => primitive!(2, "std::byte::prim::overflowing_div", byte::overflowing_div),
             from_int => primitive!(1, "std.byte.prim.from_int", |i: VmInt| i as u8),
             parse => primitive!(1, "std.byte.prim.parse", parse::<u8>),
         },
